@@ -2739,6 +2739,9 @@ static void struct_members(Token **rest, Token *tok, Type *ty) {
     // Anonymous struct member
     if ((basety->kind == TY_STRUCT || basety->kind == TY_UNION) &&
         consume(&tok, tok, ";")) {
+      if (basety->size < 0)
+        error_tok(tok, "field has incomplete type");
+
       Member *mem = calloc(1, sizeof(Member));
       mem->ty = basety;
       mem->idx = idx++;
@@ -2756,6 +2759,8 @@ static void struct_members(Token **rest, Token *tok, Type *ty) {
       Member *mem = calloc(1, sizeof(Member));
       mem->ty = declarator(&tok, tok, basety);
       mem->name = mem->ty->name;
+      if ((mem->ty->kind == TY_STRUCT || mem->ty->kind == TY_UNION) && mem->ty->size < 0)
+        error_tok(mem->ty->name_pos, "field has incomplete type");
       mem->idx = idx++;
       mem->align = attr.align ? attr.align : mem->ty->align;
 
@@ -3468,6 +3473,13 @@ static Token *function(Token *tok, Type *basety, VarAttr *attr) {
 
   if (consume(&tok, tok, ";"))
     return tok;
+
+  // A function definition needs complete parameter and return types.
+  for (Type *t = ty->params; t; t = t->next)
+    if ((t->kind == TY_STRUCT || t->kind == TY_UNION) && t->size < 0)
+      error_tok(t->name_pos ? t->name_pos : ty->name, "parameter has incomplete type");
+  if ((ty->return_ty->kind == TY_STRUCT || ty->return_ty->kind == TY_UNION) && ty->return_ty->size < 0)
+    error_tok(ty->name, "return type is an incomplete type");
 
   current_fn = fn;
   locals = NULL;
